@@ -91,13 +91,13 @@ class GenericCallAdapter(Adapter):
     def items(cls, value, node):
         new_args, new_kwargs = cls.arguments(value)
 
-        if node is not None:
-            assert isinstance(node, ast.Call)
+        if isinstance(node, ast.Call):
             assert all(kw.arg for kw in node.keywords)
             kw_arg_node = {kw.arg: kw.value for kw in node.keywords if kw.arg}.get
 
             def pos_arg_node(pos):
-                return node.args[pos]
+                # defaultdict(list) has no node for the dict
+                return node.args[pos] if pos < len(node.args) else None
 
         else:
 
